@@ -41,18 +41,17 @@ Qed.
 
 (* what a merge exposes as heads (and hence linearises) are the log's own entries - entries it held
    or entries that passed the checks above - WHATEVER the other log presents as its heads: [o] is an
-   arbitrary object here (forged head objects, heads of another log id, unknown hashes), only its
-   entry map must store entries under their own hashes.  [l] is any replica of any history. *)
+   arbitrary object here (forged head objects, heads of another log id, unknown hashes, entries
+   filed under keys that are not their hashes).  [l] is any replica of any history. *)
 Theorem C06_heads_are_own_verified_entries ops r l o size l' :
-  pwf ops -> nth_error (s_logs (run ops)) r = Some l ->
-  well_keyed (l_entries o) -> size < 0 ->
+  pwf ops -> nth_error (s_logs (run ops)) r = Some l -> size < 0 ->
   join l o false size = (l', Ok tt) ->
   forall k v, In (k, v) (l_heads l') ->
     In (k, v) (l_entries l') /\
     (In (k, v) (l_entries l) \/ (e_logid v = l_id l /\ entry_ok l v = true)).
 Proof.
-  intros W L WK Hs J k v Hh. destruct (psinv_run ops W) as [_ IL].
-  pose proof (join_heads_are_own_entries _ l o size l' (IL r l L) WK Hs J k v Hh) as He.
+  intros W L Hs J k v Hh. destruct (psinv_run ops W) as [_ IL].
+  pose proof (join_heads_are_own_entries _ l o size l' (IL r l L) Hs J k v Hh) as He.
   split; [exact He|].
   destruct (join_admits_only_valid l o size l' Hs J k v He) as [?|[A [B _]]]; auto.
 Qed.
